@@ -429,6 +429,7 @@ const (
 	actKeFail    = 6  // a key exchange, if one is needed, fails; otherwise as actDeliver
 	actDupReq    = 7  // the request reaches the server twice; the first reply passes
 	actForge     = 8  // a forged datagram with cleartext cookie fields arrives before the genuine reply
+	actUnsync    = 11 // the reply says the server is not synchronised (or is otherwise not a usable NTP reply) but is properly authenticated under S2C and carries the fresh cookies
 	actKeOdd     = 10 // a key exchange, if one is needed, hands out 1..7 cookies, or eight of another length; otherwise as actDeliver
 	actKeBadSrv  = 9  // a key exchange, if one is needed, succeeds but names a server that is not an IP address; otherwise as actDeliver
 )
@@ -652,7 +653,7 @@ func (e *env) runStep(x *cl, st step, old *[][]byte) stepObs {
 			}
 		}
 		switch act {
-		case actDeliver, actDropReply, actTamper, actReplay, actForge:
+		case actDeliver, actDropReply, actTamper, actReplay, actForge, actUnsync:
 			o.forwarded = 1
 			forward()
 		case actDupReq:
@@ -679,6 +680,33 @@ func (e *env) runStep(x *cl, st step, old *[][]byte) stepObs {
 			if len(o.replies) > 0 {
 				o.delivered = rawReplies[0]
 				o.intact = true
+			}
+		case actUnsync:
+			if len(o.replies) > 0 && o.repAuthOK {
+				// the genuine reply with another first or second byte (leap indicator 3, version 2, mode 5,
+				// stratum 0 or 16), sealed again under S2C over the changed bytes: authentic, with the same
+				// cookies; to the SCION client in a packet without packet authenticator
+				r := append([]byte(nil), o.replies[0]...)
+				switch st.arg % 5 {
+				case 0:
+					r[0] |= 0xc0
+				case 1:
+					r[1] = 0
+				case 2:
+					r[1] = 16
+				case 3:
+					r[0] = r[0]&^0x38 | 2<<3
+				case 4:
+					r[0] = r[0]&^0x07 | 5
+				}
+				if pos, nonce, ct, ok := authParts(r); ok {
+					nct := sivSeal(d.S2cKey, nonce, o.repPlain, r[:pos])
+					if len(nct) == len(ct) {
+						copy(r[len(r)-len(ct):], nct)
+						o.delivered = x.forClient(r, rawReq)
+						o.intact = true
+					}
+				}
 			}
 		case actForge:
 			if len(o.replies) > 0 {
@@ -940,6 +968,8 @@ func childMain() {
 				t, a, o = e.runConc(args)
 			case "c11.ilv":
 				t, a, o = e.runIlv(args)
+			case "c11.conck":
+				t, a, o = e.runConcKe(args)
 			}
 			fmt.Fprintf(out, "CASE\t%s\t%s\t%s\t%s\n", kind, t, a, o)
 			out.Flush()
@@ -1029,7 +1059,7 @@ func main() {
 		var scripts []job
 		for _, l := range lib.ReplayLines(a.Replay) {
 			switch l[0] {
-			case "c11.hist", "c11.shist", "c11.srv", "c11.conc", "c11.ilv":
+			case "c11.hist", "c11.shist", "c11.srv", "c11.conc", "c11.ilv", "c11.conck":
 				scripts = append(scripts, job{l[0], l[2]})
 			case "c11.store":
 				runStore(w, parseBL(l[2]), l[1])
@@ -1054,6 +1084,13 @@ func main() {
 	}
 	for i := 0; i < nconc; i++ {
 		js = append(js, job{"c11.conc", lib.L(lib.I(800), lib.I(int64(lib.Pick(r, 4, 8, 12, 12))))})
+	}
+	nck := 8
+	if a.Tier == "thorough" {
+		nck = 60
+	}
+	for i := 0; i < nck; i++ {
+		js = append(js, job{"c11.conck", lib.L(lib.I(int64(i)))})
 	}
 	js = append(js, genIlv(r.Fork(), a.Tier)...)
 	js = append(js, histJobs(genHistories(r.Fork(), a.Tier))...)
